@@ -54,3 +54,55 @@ class EWorld(wm.World):
         """quiesce with a small step limit (raises RuntimeError when the loop spins at a frozen clock)"""
         wm._CURRENT = self
         return self.loop.quiesce(limit=limit)
+
+    def settle(self, limit=3000, tick=1e-6):
+        """quiesce; if the loop spins at a frozen clock (TimeoutWatchdog sleeps 0 s until time.time() has passed its
+        deadline) tick the clock the way a real clock would.  Returns False if the loop stays busy (a busy loop in
+        the code under test)."""
+        for _ in range(5):
+            try:
+                self.run_limited(limit)
+                return True
+            except RuntimeError:
+                self.loop.advance(tick)
+        return False
+
+    def raw(self, fn, *a):
+        """perform an environment event without running the loop (several events can be made to coincide)"""
+        wm._CURRENT = self
+        return self.loop.call_in_loop(fn, *a)
+
+    def act(self, fn, *a):
+        self.raw(fn, *a)
+        return self.settle()
+
+    def close_out_eps(self, eps=0.25, max_rounds=60):
+        """like World.close_out, but timers are reached with an overshoot (an exact hit makes the watchdog spin)"""
+        for _ in range(max_rounds):
+            if self.done and not self.loop.pending_tasks():
+                break
+            progressed = False
+            for e in self.pending_connects():
+                e.state = "refused"
+                self.act(e.connect_fut.set_exception, OSError("connection refused"))
+                progressed = True
+            while self.suspended:
+                fut = self.suspended[0][2]
+                self.act(lambda: (not fut.done()) and fut.set_result(None))
+                progressed = True
+            for e in self.servers:
+                if e.state == "open" and not e.r.eof:
+                    e.r.eof = True
+                    self.act(e.eof)
+                    progressed = True
+            if not self.client.r.eof:
+                self.client.r.eof = True
+                self.act(self.client.eof)
+                progressed = True
+            if self.done and not self.loop.pending_tasks():
+                break
+            if not progressed:
+                if not self.loop.advance_to_next_timer(eps):
+                    break
+                self.settle()
+        return self.done and not self.loop.pending_tasks()
